@@ -5,6 +5,12 @@ SEQ_RULE = ("one run = one generated single-client program (10-150 transactions 
             "watermark goroutines; evaluations = runs; distinct_nontrivial = distinct event-log hashes (task, site, pc per "
             "scheduling step plus every random draw) among runs that flushed at least one table and checked at least one read")
 
+CONC_RULE = ("one run = one generated multi-client program (2-4 clients, up to 36 transactions over 2-6 adversarial keys: "
+             "read-modify-write, read-two-write-one, multi-key writers, multi-key readers, long-lived readers that stay open across "
+             "2-13 foreign commits, unique values, rotation-heavy Config) under one seeded schedule of clients, flusher/compactor and "
+             "watermark goroutines (fine-grained: calls overlap at every lock/channel/file operation; op-atomic: API calls do not overlap); "
+             "distinct_nontrivial = distinct event-log hashes among non-trivial runs")
+
 CRASH_RULE = ("one evaluation = one recovery: a recording run (generated single-writer program with multi-key transactions, "
               "small thresholds, optional clean restarts) is executed once under a seeded schedule; at EVERY mutating file operation "
               "of every goroutine the directory image and the oracle's acknowledged/in-flight sets are captured; each distinct "
@@ -50,5 +56,51 @@ PROPS = {
         eval_is_oracle=True,
         quick=dict(runs=64, budget_s=50, det_runs=3), thorough=dict(runs=3000, budget_s=1500, det_runs=8),
         must_probes=dict(quick=["crash_with_inflight_commit"], thorough=["crash_with_inflight_commit"]),
+    ),
+    "C05": dict(
+        pkg="engine", level="exploration",
+        rule=CONC_RULE + "; oracle H-snap: per transaction one snapshot-read operation in its Begin interval (all reads not answered by its own writes) "
+             "and per successful commit one write operation in its Commit interval, checked for linearizability against a map with porcupine; "
+             "own-writes and repeatable-read checked directly; non-trivial = at least 5 such operations and at least one flushed table",
+        quick=dict(runs=6000, budget_s=40), thorough=dict(runs=300000, budget_s=1200, det_runs=32),
+        must_probes=dict(quick=["long_reader_spans", "conflict_aborts", "runs_reaching_L1", "fine_grained_runs", "op_atomic_runs"],
+                         thorough=["long_reader_spans", "conflict_aborts", "runs_reaching_L2", "fine_grained_runs", "op_atomic_runs"]),
+    ),
+    "C06": dict(
+        pkg="engine", level="exploration",
+        rule=CONC_RULE + "; oracle H-txn: every committed read-write transaction and every read-only transaction is one operation over "
+             "[Begin called, finish returned] with payload (external reads with results, write set), checked for linearizability "
+             "(= strict serializability) against a map with porcupine; non-trivial = at least 5 operations",
+        quick=dict(runs=6000, budget_s=40), thorough=dict(runs=300000, budget_s=1200, det_runs=32),
+        must_probes=dict(quick=["conflict_aborts", "fine_grained_runs"], thorough=["conflict_aborts", "fine_grained_runs", "runs_reaching_L2"]),
+    ),
+    "C07": dict(
+        pkg="engine", level="exploration", eval_is_oracle=True,
+        rule=CONC_RULE + " (histories up to 150 transactions, 60% op-atomic schedules); oracle M-ssi: reference SSI validation "
+             "(snapshot = number of commits at Begin, conflict iff a later commit wrote a key read from the store), exact in op-atomic "
+             "schedules in both directions, real-time-disambiguated must-refuse/must-accept rule otherwise (ambiguous cases counted, accepted); "
+             "evaluations = commit verdicts judged",
+        quick=dict(runs=3000, budget_s=40), thorough=dict(runs=150000, budget_s=1200, det_runs=32),
+        must_probes=dict(quick=["conflict_aborts", "op_atomic_runs", "fine_grained_runs", "long_reader_spans"],
+                         thorough=["conflict_aborts", "op_atomic_runs", "fine_grained_runs", "long_reader_spans"]),
+    ),
+    "C08": dict(
+        pkg="engine", level="exploration",
+        rule=SEQ_RULE + "; two thirds of the runs are single-client programs with discarded / closure-failed transactions, misuse calls "
+             "(write in read-only txn, use after finish, empty key, View/Update after Close) and clean restarts judged by the map model "
+             "that ignores abandoned transactions; one third are 2-3 client programs where no read may return a value of a "
+             "transaction that did not commit; non-trivial = at least one abandoned transaction or misuse call and one read",
+        quick=dict(runs=3000, budget_s=40), thorough=dict(runs=150000, budget_s=1200, det_runs=32),
+        must_probes=dict(quick=["abandoned_txns", "misuse_calls", "restart", "conc_runs"], thorough=["abandoned_txns", "misuse_calls", "restart", "conc_runs"]),
+    ),
+    "C15": dict(
+        pkg="engine", level="exploration",
+        rule=CONC_RULE + " with one owning writer per key, ImmutableBuffer in {0,1,2,10}, thresholds 1-300 bytes, half of the runs with the "
+             "starve-background strategy; after the clients finish Close is called with whatever is pending, the directory is reopened "
+             "1 ns later and read back; oracle: exact deadlock detection (no runnable task while a call is outstanding), step budget "
+             "with fair round-robin tail, flusher task exited when Close returned, reopened state = last committed write per key",
+        quick=dict(runs=5000, budget_s=40), thorough=dict(runs=250000, budget_s=1200, det_runs=32),
+        must_probes=dict(quick=["close_with_pending_flush", "unbuffered_flush_queue_runs", "long_reader_spans"],
+                         thorough=["close_with_pending_flush", "unbuffered_flush_queue_runs", "long_reader_spans"]),
     ),
 }
